@@ -24,7 +24,7 @@ def load_json(path, default):
         return default
 
 
-def finish(prop, a, results, units, world, t0, seed, run_harness):
+def finish(prop, a, results, units, world, t0, seed, run_harness, extra=None):
     outdir = os.path.join(VERIF, "out", prop)
     baseline = load_json(os.path.join(VERIF, "baseline_obligations.json"), {})
     known = load_json(os.path.join(VERIF, "known_findings.json"), {"findings": []})
@@ -53,6 +53,10 @@ def finish(prop, a, results, units, world, t0, seed, run_harness):
     nviol = 0
     known_lines = []
     undecided = []
+    extra = extra or {}
+    for msg in extra.get("errors", []):
+        print("CHECKER-ERROR: %s" % msg)
+        code = 3
     if errors:
         for r in errors:
             print("CHECKER-ERROR unit=%s\n%s" % (r["unit"], r["error"][-2000:]))
@@ -162,6 +166,7 @@ def finish(prop, a, results, units, world, t0, seed, run_harness):
         "violations": lines,
         "samples": samples + samples_replayed[:3],
         "not_covered": pinfo.get("not_covered", ""),
+        "engine_self_checks": {k: v for k, v in extra.items() if k != "errors"},
         "obligation_names": [o["name"] for o in obligations] if n_ob <= 400 else [o["name"] for o in obligations[:400]],
     }
     if level != "proof":
